@@ -18,6 +18,32 @@ def lits_compared_with(node, local_name):
     return out
 
 
+def cpp_struct_field_window(ck, rule, facts):
+    """cpp::gen_struct_def raises `generating_struct_fields` only around the field declarations: with the flag still up, types named in method signatures are
+    included (complete type) instead of forward declared, and two structs that mention each other (one by value, one in a method) include each other.  Shared with C02."""
+    tool = facts.tool
+    f = tool.fn("cpp::ty::TyGenContext::gen_struct_def")
+    body = C.fn_body(f)
+    items = (body.get("s") or []) + ([body["e"]] if body.get("e") is not None else [])
+    up = down = None
+    for i, st in enumerate(items):
+        for x in C.walk(st):
+            if x.get("k") == "assign" and C.strip(x["l"]).get("k") == "field" and C.strip(x["l"]).get("n") == "generating_struct_fields":
+                v = C.strip(x["r"]).get("v")
+                if v is True and up is None:
+                    up = i
+                if v is False:
+                    down = i
+    if up is None or down is None:
+        ck.bad(rule, "cpp::gen_struct_def/field-phase-flag", "assignments raising and lowering generating_struct_fields not found (up %s, down %s)" % (up, down), C.loc(f))
+        return
+    inside = [i for i, st in enumerate(items) if up < i < down and any(x.get("k") == "mcall" and x.get("m") in ("gen_method_info",) for x in C.walk_inl(tool, st, 1, exclude=[f["path"]]))]
+    meth = [i for i, st in enumerate(items) if any(x.get("k") == "mcall" and x.get("m") == "gen_method_info" for x in C.walk(st))]
+    ck.expect(not inside and bool(meth) and all(i > down for i in meth), rule, "cpp::gen_struct_def/methods-after-field-phase", "flag lowered at statement %d, methods generated at %s" % (down, meth),
+              "struct methods are generated (statements %s) while generating_struct_fields is still raised (lowered at statement %d): types in method signatures get `#include \"X.d.hpp\"` instead of a "
+              "forward declaration, and a struct that holds another by value whose methods mention it back no longer compiles when included first" % (meth, down), C.loc(f))
+
+
 def run(ck, facts):
     core, tool, mac = facts.core, facts.tool, facts.macro
     adts = facts.all_adts()
@@ -374,6 +400,41 @@ def run(ck, facts):
               "the `unsafe impl Send/Sync` items for a trait wrapper are emitted under %s (expected: Send iff is_send, Sync iff is_sync): a trait declared with both bounds "
               "loses one of them and the expansion no longer type-checks where that bound is required" % marker, C.loc(gbf))
 
+    # ---------------- R7 C++ const-correctness the templates rely on, and the field/method phases of the struct generator
+    ck.rule("R7", "C++ members the hard-coded `const` comparison operators call are const themselves: a method whose self is a shared borrow or a by-value (consuming) struct/enum is declared "
+                  "`const`; while struct methods are generated the field phase (by-value types need complete definitions, so includes instead of forward declarations) is over")
+    import exprval
+    gmi = tool.fn("cpp::ty::TyGenContext::gen_method_info")
+    conds = []
+    for b_ in C.bodies_inl(tool, C.fn_body(gmi), depth=1, exclude=[gmi["path"]]):
+        for n in C.walk(b_):
+            if n.get("k") == "match":
+                for a_ in n["arms"]:
+                    if a_.get("g") is not None and any(l_ == "const" for l_ in C.str_lits(a_["b"])):
+                        conds.append((a_["g"], n.get("ln")))
+            elif n.get("k") == "if" and any(l_ == "const" for l_ in C.str_lits(n["t"])) and C.strip_keep_macro(n["c"]).get("k") != "let":
+                conds.append((n["c"], n.get("ln")))
+    if not conds:
+        ck.bad("R7", "cpp::gen_method_info/const-qualifier", "no condition selecting the `const` qualifier found (anchor lost)", C.loc(gmi))
+    for c_, ln_ in conds:
+        res = {}
+        for nm, env in (("&self", {"()is_immutably_borrowed": True, "()is_consuming": False}), ("self", {"()is_immutably_borrowed": False, "()is_consuming": True}),
+                        ("&mut self", {"()is_immutably_borrowed": False, "()is_consuming": False})):
+            try:
+                res[nm] = bool(exprval.bev(c_, env))
+            except exprval.Unknown as e_:
+                res[nm] = "unknown: %s" % e_
+        ck.expect(res == {"&self": True, "self": True, "&mut self": False}, "R7", "cpp::gen_method_info/const-qualifier", str(res),
+                  "the `const` qualifier is chosen as %s (expected for `&self` and by-value `self`, not for `&mut self`): the comparison operators of a struct or enum are hard-coded `const` in "
+                  "method_impl.h.jinja and call the by-value-self comparator, so the header no longer compiles" % res, C.loc(gmi, ln_))
+    ops = re.findall(r"operator(==|!=|<=|>=|<|>)\(const [^)]*\) const", C.read_repo("tool/templates/cpp/method_impl.h.jinja"))
+    ck.expect(len(ops) >= 6, "R7", "cpp/method_impl.h/const-comparison-operators", "%d const operators" % len(ops), "the comparison operators are no longer the 6 hard-coded const members this rule pairs the qualifier with (%d found)" % len(ops), "tool/templates/cpp/method_impl.h.jinja")
+    cpp_struct_field_window(ck, "R7", facts)
+    # the extern "C" fn the macro emits takes its lifetime generics (and their bounds) from the method's LifetimeEnv: bounds written in a `where` clause
+    # must be in it, or the expansion fails borrow checking (shares C05.R4)
+    import c05
+    c05.parse_rules(C.SubCheck(ck, "R7", "", ["R4w"]), "R3w", "R4w", facts)
+
     # ---------------- R3 (cont.) include guards are derived from the whole relative path (two files of the same name in different directories get different guards)
     ng = 0
     for f in tool.fn_list:
@@ -434,3 +495,33 @@ def run(ck, facts):
                                   "for context %s under the %s ABI the slice conversion expands to `%s`: unbalanced brackets %s, the generated module does not parse" % (ctx, abi, text[:110], bal), C.loc(jf, arm.get("ln")))
     if nbal < 15:
         ck.bad("R5", "js::slice-conversion/floor", "only %d (combination, literal) pairs evaluated" % nbal)
+    # the other arms of the same dispatcher (options, ...): the expression the arm evaluates to under each (context, ABI) is balanced as well
+    nother = 0
+    if jf is not None and mt is not None:
+        for arm_ in mt["arms"]:
+            vname = (arm_["pat"].get("v") or "").split("::")[-1]
+            if vname in ("Slice", "") or C.diverges(arm_["b"]):
+                continue
+            bodies_ = C.bodies_inl(tool, arm_["b"], depth=1, exclude=[jf["path"]])
+            for ctx, abi in combos + [("List", "CSpec")]:   # option parameters take the List context under both ABIs
+                for b_ in bodies_:
+                    fr = fragbal.Frag({"gen_context": ctx, "abi": abi})
+                    try:
+                        val = fr.sval(b_)
+                    except Exception:
+                        val = None
+                    texts = []
+                    if isinstance(val, fragbal.Alt):
+                        for a_ in val.alts:
+                            texts += fragbal.expand_all(a_, fr.vals)
+                    elif isinstance(val, str):
+                        texts = fragbal.expand_all(val, fr.vals)
+                    for text in texts:
+                        if "(" not in text and "[" not in text:
+                            continue
+                        nother += 1
+                        bal = fragbal.balance(text)
+                        ck.expect(bal["()"] == 0 and bal["[]"] == 0, "R5", "js::%s-conversion/balanced/%s+%s" % (vname, ctx, abi), text[:70],
+                                  "for context %s under the %s ABI the %s conversion expands to `%s`: unbalanced brackets %s, the generated module does not parse" % (ctx, abi, vname, text[:120], bal), C.loc(jf, arm_.get("ln")))
+    if nother < 4:
+        ck.bad("R5", "js::other-conversions/floor", "only %d non-slice conversion expressions evaluated (4 counted: DiplomatOption under List+Legacy, List/WriteToBuffer+CSpec, WriteToBuffer+Legacy)" % nother)
